@@ -87,6 +87,67 @@ def summary_diff(before, after, out):
     return mm
 
 
+UNPRIV = ['setpriv', '--reuid', '65534', '--regid', '65534', '--clear-groups']
+
+
+def run_unprivileged(run, binary, base, rng, n):
+    """The sync runs as an unprivileged user on a destination it may write to but whose files belong to somebody else:
+    writing the bytes succeeds, setting the modification time is refused (EPERM).  That failure must be reported: exit 0
+    only if every file really carries the source's bytes AND time."""
+    from props.c01 import mirror_oracle
+    T0 = sync_e2e.T0
+    if os.geteuid() != 0 or not shutil.which('setpriv'):
+        run.count('unpriv:skipped')
+        return
+    probe = e2e.run_cli(binary, ['--version'], prefix=UNPRIV, timeout=30)
+    if probe['exit'] != 0:
+        run.count('unpriv:skipped')
+        return
+    os.chmod(base, 0o755)                     # the unprivileged user must be able to reach the sandboxes
+    for i in range(n):
+        root = tempfile.mkdtemp(prefix='unp_', dir=base)
+        try:
+            os.chmod(root, 0o777)
+            src = {'': {'k': 'dir'}}
+            dest = {'': {'k': 'dir'}}
+            owners = {}
+            for k in range(rng.randrange(1, 5)):
+                nm = 'f%d' % k
+                src[nm] = {'k': 'file', 'data': b'new-%d' % k * rng.choice([1, 1, 900]), 'mtime_ns': T0 + 5 * 10**9 + k}
+                if rng.random() < 0.8:
+                    dest[nm] = {'k': 'file', 'data': b'old', 'mtime_ns': T0 - 10**9 * rng.choice([1, 50])}
+                    owners[nm] = rng.choice(['root', 'root', 'nobody'])
+            e2e.build_tree(os.path.join(root, 'src'), src)
+            e2e.build_tree(os.path.join(root, 'dest'), dest)
+            os.chmod(os.path.join(root, 'dest'), 0o777)
+            os.chown(os.path.join(root, 'dest'), 65534, 65534)
+            for nm, who in owners.items():
+                pth = os.path.join(root, 'dest', nm)
+                os.chmod(pth, 0o666)
+                if who == 'nobody':
+                    st = os.stat(pth)
+                    os.chown(pth, 65534, 65534)
+                    os.utime(pth, ns=(st.st_mtime_ns, st.st_mtime_ns))
+            srcsnap = e2e.snapshot(os.path.join(root, 'src'))
+            before = e2e.snapshot(os.path.join(root, 'dest'))
+            r = e2e.run_cli(binary, [os.path.join(root, 'src'), os.path.join(root, 'dest'), '--dest-file-newer', 'overwrite', '--dest-file-older', 'overwrite'],
+                            prefix=UNPRIV, timeout=60)
+            after = e2e.snapshot(os.path.join(root, 'dest'))
+            out = e2e.parse_output(r['stdout'] + r['stderr'])
+            foreign = sorted(nm for nm, who in owners.items() if who == 'root')
+            run.count('unpriv:exit:%s:%s' % (r['exit'], 'foreign' if foreign else 'own'))
+            run.case(('unpriv', i), True, sample={'foreign_owned': foreign, 'exit': r['exit']} if i < 3 else None)
+            rep = {'family': 'unprivileged', 'src': sorted(src), 'owners': owners, 'exit': r['exit'], 'text': (r['stdout'] + r['stderr'])[-700:]}
+            if r['exit'] == 0:
+                bad = mirror_oracle(srcsnap, before, after, [])
+                if bad:
+                    run.fail('C07: run as an unprivileged user over files owned by somebody else exited 0 although ' + bad, rep)
+            elif not out['errors']:
+                run.fail('C07: exit %s without an error message (unprivileged run)' % r['exit'], rep)
+        finally:
+            shutil.rmtree(root, ignore_errors=True)
+
+
 def check(run):
     run.trusted = list(vlib.COMMON_TRUSTED) + ['the doer fault hooks (harness/hooks/doer/00_faults.rs) and the scripted doers (harness/subs/scripted.rs) deliver the failures as described',
                                                'crossbeam channel FIFO (an Error reply is delivered before a later Marker echo)']
@@ -263,6 +324,8 @@ def check(run):
         # ---- F: generated specs with 1-4 syncs over shared roots against Model/SpecRun.v (exit status, which syncs ran) ----
         import spec_e2e
         spec_e2e.family(run, binary, jbin, base, 40 if quick else 2500, rng, 'C07')
+        # ---- G: unprivileged run over a destination whose files belong to somebody else (the time cannot be set) ----
+        run_unprivileged(run, binary, base, rng, 25 if quick else 800)
     finally:
         shutil.rmtree(base, ignore_errors=True)
     return run.finish(search=None)
